@@ -326,6 +326,46 @@ def r07c(ctx):
                           f"node that may belong to one of the input trees (printed nodes include the second tree's "
                           f"through Insert/Match)")
 
+    MUTATORS = {"add", "remove", "discard", "pop", "popitem", "clear", "update", "subtract", "append", "extend",
+                "insert", "sort", "reverse", "setdefault", "__setitem__", "__delitem__"}
+
+    def check_inplace(f, role):
+        """Augmented assignment / mutating method call on a bare parameter that has not been rebound to a private
+        copy under the same guard: the object mutated is the caller's (typically the node's own children)."""
+        nonlocal n
+        params = [p for p in func_params(f.node) if p not in non_node_params]
+        rebinds = {}
+        for s_ in walk_no_nested(f.node):
+            if isinstance(s_, ast.Assign) and len(s_.targets) == 1 and isinstance(s_.targets[0], ast.Name) \
+                    and s_.targets[0].id in params and isinstance(s_.value, ast.Call):
+                rebinds.setdefault(s_.targets[0].id, []).append(s_)
+        for node in walk_no_nested(f.node):
+            tgt = why = None
+            if isinstance(node, ast.AugAssign) and isinstance(node.target, ast.Name) and node.target.id in params \
+                    and isinstance(node.op, (ast.Sub, ast.BitOr, ast.BitAnd, ast.BitXor, ast.Add)):
+                tgt, why = node.target.id, f"`{norm(node, 50)}` (in-place operator on a mutable collection)"
+            elif isinstance(node, ast.AugAssign) and isinstance(node.target, ast.Subscript) \
+                    and isinstance(node.target.value, ast.Name) and node.target.value.id in params:
+                tgt, why = node.target.value.id, f"`{norm(node, 50)}`"
+            elif isinstance(node, ast.Call) and isinstance(node.func, ast.Attribute) and node.func.attr in MUTATORS \
+                    and isinstance(node.func.value, ast.Name) and node.func.value.id in params:
+                tgt, why = node.func.value.id, f"`{norm(node, 50)}`"
+            if tgt is None:
+                continue
+            a = {x.arg: x.annotation for x in f.node.args.args + f.node.args.kwonlyargs}.get(tgt)
+            atxt = ast.unparse(a) if a is not None else ""
+            if any(x in atxt for x in ("Printer", "Formatter", "Writer", "BuildOptions", "HeapNode", "List[TreeNode]")):
+                continue
+            n += 1
+            copied = any(r.lineno < node.lineno and _guard_subset(r, node) for r in rebinds.get(tgt, []))
+            if copied:
+                ctx.proved("R07c", f.file, f.short, node, f"in-place {tgt}",
+                           f"`{tgt}` was rebound to a private copy under the same guard before being modified")
+            else:
+                ctx.violation("R07c", f.file, f.short, node, f"in-place {tgt}",
+                              f"{why} mutates parameter `{tgt}` in {role} code; on this path it can still be the caller's "
+                              f"object (a node's own children), so comparing two documents alters an input tree")
+
     for q in m.subclasses(F):
         for name, (kind, v) in m.attrs[q].items():
             if kind == "def":
@@ -334,6 +374,8 @@ def r07c(ctx):
         for name, (kind, v) in m.attrs[q].items():
             if kind == "def" and name != "__init__":
                 check(v, "edit")
+            if kind == "def":
+                check_inplace(v, "edit")
     for q in m.subclasses(T):
         for name, (kind, v) in m.attrs[q].items():
             # constructors adopt the (fresh) children they are given: building is not the diff/print phase
@@ -377,6 +419,42 @@ def r07c(ctx):
         ctx.inconclusive("R07c", "-", "-", None, "TreeNodeMeta", "anchor class TreeNodeMeta missing")
 
 
+def _guard_subset(a, b):
+    from ..astx import dominating_conditions, flatten_conditions
+    ga = {ast.unparse(t) + str(p) for t, p in flatten_conditions(dominating_conditions(a))}
+    gb = {ast.unparse(t) + str(p) for t, p in flatten_conditions(dominating_conditions(b))}
+    return ga <= gb
+
+
+def r07d(ctx, reach):
+    m = ctx.model
+    ctx.rule("R07d", "no process-wide memo conflates values the engine distinguishes: a functools cache on engine code "
+                     "must be typed (1, True and 1.0 are equal as keys) unless its body is insensitive to the argument type")
+    n = 0
+    for f in sorted(m.functions.values(), key=lambda f: f.qual):
+        for d in f.node.decorator_list:
+            nm = dotted(d.func if isinstance(d, ast.Call) else d) or ""
+            if nm.split(".")[-1] not in ("lru_cache", "cache"):
+                continue
+            n += 1
+            typed = isinstance(d, ast.Call) and any(k.arg == "typed" and isinstance(k.value, ast.Constant) and k.value.value is True
+                                                    for k in d.keywords)
+            params = set(func_params(f.node))
+            sensitive = [c for c in walk_no_nested(f.node) if isinstance(c, ast.Call)
+                         and call_name(c) in ("str", "repr", "type", "isinstance", "format")
+                         and any(isinstance(x, ast.Name) and x.id in params for a in c.args for x in ast.walk(a))]
+            if typed or not sensitive:
+                ctx.proved("R07d", f.file, f.short, f.node, f"cache on {f.short}",
+                           "typed cache, or the body does not depend on the argument's type")
+            elif f.qual in reach or True:
+                ctx.violation("R07d", f.file, f.short, d, f"cache on {f.short}",
+                              f"`@{nm}` without typed=True memoises {f.short} on ==-equal keys, but the body applies "
+                              f"`{norm(sensitive[0], 40)}` to an argument: the result for 1 is returned for True or 1.0 "
+                              f"(and vice versa), so a diff depends on which values earlier diffs in the same process saw")
+    if n == 0:
+        ctx.proved("R07d", "-", "-", None, "no functools caches", "the package uses no functools.lru_cache/cache", nontrivial=False)
+
+
 def run(ctx):
     m = ctx.model
     cg = CallGraph(m)
@@ -387,5 +465,6 @@ def run(ctx):
     r07a(ctx, reach)
     r07b(ctx, reach)
     r07c(ctx)
+    r07d(ctx, reach)
     ctx.assume("third-party libraries (scipy assignment, json/yaml/plist encoders, intervaltree iteration) are deterministic")
     ctx.assume("dict and Counter iteration is insertion-ordered (CPython >= 3.7); only set/frozenset order is hash-dependent")
